@@ -178,6 +178,34 @@ pub fn structured_bases(rng: &mut ChaCha8Rng, thorough: bool) -> Vec<Base> {
     out
 }
 
+/// Base cases of the thread-count sweep: every k, point sets of 1, 2, 3 and 5 points (the lengths
+/// of the interpolated `r(X)`), a chopped commitment.
+pub fn pool_bases(rng: &mut ChaCha8Rng) -> Vec<Base> {
+    let mut out = vec![];
+    for k in 2..=7u32 {
+        let t = if k == 2 { 3 } else { 5 };
+        let masks: Vec<u32> = if k == 2 { vec![7, 3, 1] } else { vec![31, 7, 3, 1, 7] };
+        let mut ord = vec![];
+        for (i, m) in masks.iter().enumerate() {
+            for p in 0..t {
+                if m >> p & 1 == 1 {
+                    ord.push((i, p));
+                }
+            }
+        }
+        out.push(plain_base(rng, "pool", k, &masks, t, ord, |_| 0, k as usize));
+    }
+    {
+        let k = 3u32;
+        let n = 1usize << k;
+        let mut polys: Vec<Vec<Fq>> = (0..3).map(|_| poly_of(rng, n, 0)).collect();
+        polys.push(poly_of(rng, n, 0));
+        let items = vec![Item::Plain { poly: 3, points: vec![0, 1, 2] }, Item::Chopped { pieces: vec![0, 1, 2], nparam: 8, point: 1 }];
+        out.push(Base { k, s: Fq::random(&mut *rng), name: "pool-chopped".into(), polys, pts: points_of(rng, 3, 0, k), items, order: vec![(0, 0), (0, 1), (1, 1), (0, 2)] });
+    }
+    out
+}
+
 /// Probes of inputs on which the anchored code leaves the property's statement (kept separate so
 /// that each has a stable key).
 pub fn probe_bases(rng: &mut ChaCha8Rng) -> Vec<Base> {
